@@ -20,7 +20,7 @@ VER = "%d%d" % V
 
 
 class _Budget(BaseException):
-    """the traced program used up its event budget or its wall-clock guard (it does not terminate)"""
+    """the traced program used up its event budget or its CPU-time guard (it does not terminate)"""
 
 
 def well_formed(code):
@@ -57,7 +57,7 @@ def observe(code, calls, max_events=5000):
     out = io.StringIO()
 
     def alarm(signum, frame):
-        raise _Budget("wall clock")
+        raise _Budget("cpu time")
 
     def tracer(frame, event, arg):
         if frame.f_code.co_filename != "<prog>":
@@ -79,8 +79,8 @@ def observe(code, calls, max_events=5000):
     ns = {"__name__": "prog"}
     old_out = sys.stdout
     sys.stdout = out
-    old_alarm = signal.signal(signal.SIGALRM, alarm)
-    signal.setitimer(signal.ITIMER_REAL, 30)
+    old_alarm = signal.signal(signal.SIGVTALRM, alarm)
+    signal.setitimer(signal.ITIMER_VIRTUAL, 30)
     sys.settrace(tracer)
     try:
         try:
@@ -106,8 +106,8 @@ def observe(code, calls, max_events=5000):
         results.append(["budget"])
     finally:
         sys.settrace(None)
-        signal.setitimer(signal.ITIMER_REAL, 0)
-        signal.signal(signal.SIGALRM, old_alarm)
+        signal.setitimer(signal.ITIMER_VIRTUAL, 0)
+        signal.signal(signal.SIGVTALRM, old_alarm)
         sys.stdout = old_out
     return {"events": events, "results": results, "out": out.getvalue()[:2000]}
 
